@@ -34,6 +34,9 @@ pub struct Swarm {
     /// the others until their clocks catch up, so only the safety oracles apply (nothing
     /// invented, every node join-closed, closing sessions terminate)
     pub big_skew: bool,
+    /// C12: the same histories, judged only on what the nodes' subscribers are told about
+    /// entries that reach them from peers (the convergence oracles are C04's)
+    pub events_only: bool,
 }
 
 const BASE: u64 = 1_700_000_000_000_000;
@@ -78,7 +81,7 @@ pub struct SwarmPlan {
 impl Scenario for Swarm {
     type Plan = SwarmPlan;
     fn name(&self) -> String {
-        if self.big_skew { "swarm-bigskew".into() } else { "swarm".into() }
+        if self.events_only { "swarm-events".into() } else if self.big_skew { "swarm-bigskew".into() } else { "swarm".into() }
     }
 
     fn gen(&self, rng: &mut Rng, tier: Tier) -> SwarmPlan {
@@ -130,7 +133,7 @@ impl Scenario for Swarm {
     }
 
     fn exec(&self, plan: &SwarmPlan, cx: &mut Cx) -> Res {
-        block_on_sim(plan.seed, run(plan, cx, self.big_skew))
+        block_on_sim(plan.seed, run(plan, cx, self.big_skew, self.events_only))
     }
 
     fn shrink(&self, plan: &SwarmPlan) -> Vec<SwarmPlan> {
@@ -173,7 +176,10 @@ impl Scenario for Swarm {
     }
 
     fn rule(&self) -> String {
-        "A run is 8-60 steps over 2-5 nodes with clock skew within ±4 min (in a quarter of the runs with three or more nodes one of them holds the document read-only: it cannot write but receives and relays): in half of the runs most nodes first write 4-40 distinct keys of one length whose broadcasts are all lost (so that sessions have dozens of entries to move and a cut leaves them half way); then local writes and prefix deletions, broadcast of each local insert to the other nodes through SimNet (deliver in any order, drop, duplicate, partition/heal), sessions between pairs advanced frame by frame and cut (EOF/reset) at any frame, orderly restarts, restarts in which the actor is dropped without a shutdown (the store's destructor runs) and (in half of the runs) crashes with loss model L1/L2, virtual-time advances; then a closing phase of complete sessions along a random spanning tree until one round is silent (budget nodes+1 rounds). Non-trivial: at least one fault kind fired.".into()
+        if self.events_only {
+            return "The histories of the swarm scenario (2-5 real store actors with subscribers, local writes and deletions, lossy / duplicating / reordering broadcast, real sessions over SimPipes advanced frame by frame and cut, restarts and crashes), judged only on what every node's subscriber is told about entries that reach it from a peer, by broadcast or inside a session: the document, an entry some node wrote, the providing peer, the provider's content status (every node runs with a content-status callback that is a fixed function of the content hash, as the engine installs one backed by its blob store) and the download flag of the default policy.".into();
+        }
+        "Every node runs with a content-status callback (a fixed function of the content hash) and a subscriber; every remote-insert event is checked for document, provider, provider's content status and download flag. A run is 8-60 steps over 2-5 nodes with clock skew within ±4 min (in a quarter of the runs with three or more nodes one of them holds the document read-only: it cannot write but receives and relays): in half of the runs most nodes first write 4-40 distinct keys of one length whose broadcasts are all lost (so that sessions have dozens of entries to move and a cut leaves them half way); then local writes and prefix deletions, broadcast of each local insert to the other nodes through SimNet (deliver in any order, drop, duplicate, partition/heal), sessions between pairs advanced frame by frame and cut (EOF/reset) at any frame, orderly restarts, restarts in which the actor is dropped without a shutdown (the store's destructor runs) and (in half of the runs) crashes with loss model L1/L2, virtual-time advances; then a closing phase of complete sessions along a random spanning tree until one round is silent (budget nodes+1 rounds). Non-trivial: at least one fault kind fired.".into()
     }
 }
 
@@ -259,7 +265,7 @@ async fn boot(i: u8, clock: u64, image: Option<Vec<u8>>, read_only: bool) -> Res
         }
         store.flush().map_err(|e| harness(format!("{e:#}")))?;
     }
-    let node = Node::start(store);
+    let node = Node::start_with_status(store);
     node.set_clock(clock);
     let (txe, rxe) = async_channel::bounded::<Event>(4096);
     let peer_id = iroh::SecretKey::from_bytes(&[0xC0 + i; 32]).public();
@@ -325,7 +331,7 @@ async fn full_session(nodes: &[SimNode], a: u8, b: u8, cx: &mut Cx) -> Res<Resul
     }
 }
 
-async fn run(plan: &SwarmPlan, cx: &mut Cx, big_skew: bool) -> Res {
+async fn run(plan: &SwarmPlan, cx: &mut Cx, big_skew: bool, events_only: bool) -> Res {
     let w = world();
     let ns = w.doc_id(0);
     let n = plan.nodes as usize;
@@ -345,6 +351,30 @@ async fn run(plan: &SwarmPlan, cx: &mut Cx, big_skew: bool) -> Res {
         () => {{
             for i in 0..n {
                 while let Ok(ev) = nodes[i].events.try_recv() {
+                    if let Event::RemoteInsert { from, entry, should_download, remote_content_status, namespace } = &ev {
+                        // what a node is told about an entry that reached it from a peer (by
+                        // broadcast or in a session): who provided it, whether to fetch it, and
+                        // the provider's content status - every node reports `status_of(hash)`
+                        cx.probe("remote_insert_event_checked");
+                        let want = crate::node::status_of(&entry.content_hash());
+                        let provider_ok = (0..n).any(|j| j != i && nodes[j].peer_id.as_bytes() == from);
+                        let problem = if *namespace != ns {
+                            Some(format!("names document {namespace:?}"))
+                        } else if !written.contains(&postcard::to_stdvec(entry).unwrap()) {
+                            Some("carries an entry that no node wrote".to_string())
+                        } else if *remote_content_status != want {
+                            Some(format!("reports content status {remote_content_status:?}, the providing node said {want:?}"))
+                        } else if !provider_ok {
+                            Some(format!("names provider {} which is not one of the other nodes", hex::encode(&from[..4])))
+                        } else if !*should_download {
+                            Some("says the content should not be downloaded although no policy was ever set".to_string())
+                        } else {
+                            None
+                        };
+                        if let Some(p) = problem {
+                            return Err(Violation::new("event/remote-insert-payload", format!("node {i}: the event for remote entry {:?} {p}", ent_of(0, entry).map(|e| e.short()))));
+                        }
+                    }
                     if let Event::LocalInsert { entry, .. } = ev {
                         let bytes = postcard::to_stdvec(&Op::Put(entry.clone())).map_err(|e| harness(e.to_string()))?;
                         written.insert(postcard::to_stdvec(&entry).unwrap());
@@ -455,7 +485,8 @@ async fn run(plan: &SwarmPlan, cx: &mut Cx, big_skew: bool) -> Res {
                 let op: Op = postcard::from_bytes(&g.bytes).map_err(|e| harness(format!("op decode: {e}")))?;
                 if let (Op::Put(entry), Some(nd)) = (op, nodes[g.to as usize].node.as_ref()) {
                     let from = *nodes[g.from as usize].peer_id.as_bytes();
-                    let r = nd.handle.insert_remote(ns, entry, from, ContentStatus::Missing).await;
+                    let status = crate::node::status_of(&entry.content_hash());
+                    let r = nd.handle.insert_remote(ns, entry, from, status).await;
                     cx.ev("gossip", format!("{}->{} {}", g.from, g.to, r.is_ok()));
                 }
             }
@@ -581,6 +612,17 @@ async fn run(plan: &SwarmPlan, cx: &mut Cx, big_skew: bool) -> Res {
         pump_events!();
     }
     pump_events!();
+    if events_only {
+        for mut s in sessions.drain(..) {
+            s.cut(false);
+        }
+        for nd in nodes.iter_mut() {
+            if let Some(n) = nd.node.take() {
+                let _ = n.stop().await;
+            }
+        }
+        return Ok(());
+    }
 
     // ---- faults stop ------------------------------------------------------------------------
     for mut s in sessions.drain(..) {
